@@ -1,7 +1,197 @@
-(** * C13 — INTERIM file (being completed): containment predicates. *)
-From Coq Require Import Reals Lra.
-From D3 Require Import Base.Ops Base.Vec Base.RVec Base.RVec2 Spec.Convex Spec.Shapes Model.Contain Proofs.ContainProofs.
+(** * C13 — Point containment predicates agree with the shapes and the distance functions.
+
+    Theorems only.  Model: Model/Contain.v (per-point transliteration of
+    distance3d/containment_test.py; the batch functions are [map]s of it), at exact real
+    arithmetic.  Point sets: Spec/Shapes.v.  Distance functions: Model/DistPrim.v
+    (point_to_box / point_to_disk / point_to_cylinder, shared with C10).  Support mappings:
+    Model/Support.v.  Proofs: Proofs/ContainProofs.v, Proofs/ContainCross.v.
+
+    For orthonormal poses ([is_rotation]) every predicate is EXACTLY membership in the
+    closed set: [predicate p = true <-> p in shape] (boundary points included: the code's
+    [<=] / [not >] comparisons are the closed ones).  The 1e-9*L band of the property is
+    therefore about rounding only. *)
+From Coq Require Import Reals Lra List Bool.
+From D3 Require Import Base.Ops Base.Vec Base.RVec Base.RVec2 Spec.Convex Spec.Shapes
+  Model.Support Model.Contain Proofs.ShapesTac Proofs.ContainProofs Proofs.ContainCross.
+From D3 Require Model.DistPrim.
+Import ListNotations.
 Local Open Scope R_scope.
+
+(** ** predicate = true  <->  point of the closed shape *)
 Theorem C13_sphere (p c : V3R) (r : R) : point_in_sphere p c r = true <-> sphere_set c r p.
 Proof. exact (point_in_sphere_iff p c r). Qed.
 Print Assumptions C13_sphere.
+
+(** [0 < h]: for h = 0 the code divides 0/0 (NaN in binary64, 0 in Coq's total division) *)
+Theorem C13_capsule (p : V3R) (T : Pose R) (r h : R) :
+  is_rotation (rot T) -> 0 < h -> (point_in_capsule p T r h = true <-> capsule_set T r h p).
+Proof. exact (point_in_capsule_iff p T r h). Qed.
+Print Assumptions C13_capsule.
+
+Theorem C13_ellipsoid (p : V3R) (T : Pose R) (radii : V3R) :
+  is_rotation (rot T) -> (point_in_ellipsoid p T radii = true <-> ellipsoid_set T radii p).
+Proof. exact (point_in_ellipsoid_iff p T radii). Qed.
+Print Assumptions C13_ellipsoid.
+
+Theorem C13_cylinder (p : V3R) (T : Pose R) (r l : R) :
+  is_rotation (rot T) -> (point_in_cylinder p T r l = true <-> cylinder_set T r l p).
+Proof. exact (point_in_cylinder_iff p T r l). Qed.
+Print Assumptions C13_cylinder.
+
+Theorem C13_cone (p : V3R) (T : Pose R) (r h : R) :
+  is_rotation (rot T) -> 0 < h -> (point_in_cone p T r h = true <-> cone_set T r h p).
+Proof. exact (point_in_cone_iff p T r h). Qed.
+Print Assumptions C13_cone.
+
+Theorem C13_box (p : V3R) (T : Pose R) (size : V3R) :
+  is_rotation (rot T) -> (point_in_box p T size = true <-> box_set T size p).
+Proof. exact (point_in_box_iff p T size). Qed.
+Print Assumptions C13_box.
+
+(** the disk predicate accepts exactly the slab of half width 10*eps (eps = 2^-52, an
+    ABSOLUTE threshold) around the flat disk: the points q + t*n, q in the disk, |t| <= 10 eps *)
+Theorem C13_disk (p c : V3R) (r : R) (n : V3R) :
+  dot n n = 1 ->
+  (point_in_disk p c r n = true <->
+   exists q t, disk_set c r n q /\ Rabs t <= @EPSILON10 R ROps /\ p = vadd q (vscale t n)).
+Proof. exact (point_in_disk_iff p c r n). Qed.
+Print Assumptions C13_disk.
+
+Theorem C13_disk_contains_disk (p c : V3R) (r : R) (n : V3R) :
+  dot n n = 1 -> disk_set c r n p -> point_in_disk p c r n = true.
+Proof. exact (point_in_disk_of_disk p c r n). Qed.
+Print Assumptions C13_disk_contains_disk.
+
+(** ** convex mesh *)
+(** exactly the intersection of the face half-spaces (normal (f1-f0)x(f2-f0), through the
+    face centre), never an IndexError when the triangle indices are in range *)
+Theorem C13_convex_mesh_halfspaces (p : V3R) (T : Pose R) (vs : list V3R) ts fs :
+  face_planes vs ts = Some fs ->
+  exists b, point_in_convex_mesh p T vs ts = Some b /\
+    (b = true <-> forall f, In f fs -> dot (fst f) (vsub (to_local T p) (snd f)) <= 0).
+Proof. exact (point_in_convex_mesh_halfspaces p T vs ts fs). Qed.
+Print Assumptions C13_convex_mesh_halfspaces.
+
+(** PARTIAL.  Proved: with outward oriented faces every point of the placed hull is
+    accepted (so a rejected point is NOT in the hull).  Missing for the full equivalence:
+    the converse "inside all face half-spaces -> convex combination of the vertices", which
+    needs the faces to be the complete boundary of the hull (the H- equals V-representation
+    theorem for polytopes); it is a property of the input triangulation. *)
+Theorem C13_convex_mesh_complete_partial (p : V3R) (T : Pose R) (vs : list V3R) ts fs :
+  is_rotation (rot T) -> face_planes vs ts = Some fs -> faces_outward vs fs ->
+  hull_set T vs p -> point_in_convex_mesh p T vs ts = Some true.
+Proof. exact (point_in_convex_mesh_complete_partial p T vs ts fs). Qed.
+Print Assumptions C13_convex_mesh_complete_partial.
+
+(** ** agreement with the library's own point_to_<shape> distance (models of C10) *)
+Theorem C13_box_distance (p : V3R) (T : Pose R) (size : V3R) :
+  is_rotation (rot T) -> 0 <= vx size -> 0 <= vy size -> 0 <= vz size ->
+  (point_in_box p T size = true <-> fst (DistPrim.point_to_box p T size) = 0).
+Proof. exact (point_in_box_iff_distance_zero p T size). Qed.
+Print Assumptions C13_box_distance.
+
+Theorem C13_cylinder_distance (p : V3R) (T : Pose R) (r l : R) :
+  is_rotation (rot T) -> 0 <= r -> 0 <= l ->
+  (point_in_cylinder p T r l = true <-> fst (DistPrim.point_to_cylinder p T r l) = 0).
+Proof. exact (point_in_cylinder_iff_distance_zero p T r l). Qed.
+Print Assumptions C13_cylinder_distance.
+
+Theorem C13_disk_distance_small (p c : V3R) (r : R) (n : V3R) :
+  dot n n = 1 -> 0 <= r ->
+  point_in_disk p c r n = true -> fst (DistPrim.point_to_disk p c r n) <= @EPSILON10 R ROps.
+Proof. exact (point_in_disk_distance_small p c r n). Qed.
+Print Assumptions C13_disk_distance_small.
+
+Theorem C13_disk_distance_zero (p c : V3R) (r : R) (n : V3R) :
+  dot n n = 1 -> 0 <= r ->
+  (fst (DistPrim.point_to_disk p c r n) = 0 <-> disk_set c r n p).
+Proof.
+  intros Hn Hr. split.
+  - intros H. exact (proj1 (distance_zero_point_in_disk p c r n Hn Hr H)).
+  - exact (point_in_disk_exact_distance_zero p c r n Hn Hr).
+Qed.
+Print Assumptions C13_disk_distance_zero.
+
+(** ** agreement with the support mappings: no contained point projects beyond the
+       support value, in any direction (incl. d = 0) *)
+Theorem C13_sphere_support (p c d : V3R) (r : R) : 0 <= r ->
+  point_in_sphere p c r = true -> dot p d <= dot (support_sphere d c r) d.
+Proof. exact (contained_sphere_below_support p c d r). Qed.
+Print Assumptions C13_sphere_support.
+
+Theorem C13_capsule_support (p d : V3R) (T : Pose R) (r h : R) :
+  is_rotation (rot T) -> 0 <= r -> 0 < h ->
+  point_in_capsule p T r h = true -> dot p d <= dot (support_capsule d T r h) d.
+Proof. exact (contained_capsule_below_support p d T r h). Qed.
+Print Assumptions C13_capsule_support.
+
+Theorem C13_ellipsoid_support (p d : V3R) (T : Pose R) (radii : V3R) :
+  is_rotation (rot T) -> 0 < vx radii -> 0 < vy radii -> 0 < vz radii ->
+  point_in_ellipsoid p T radii = true -> dot p d <= dot (support_ellipsoid d T radii) d.
+Proof. exact (contained_ellipsoid_below_support p d T radii). Qed.
+Print Assumptions C13_ellipsoid_support.
+
+Theorem C13_cone_support (p d : V3R) (T : Pose R) (r h : R) :
+  is_rotation (rot T) -> 0 <= r -> 0 < h ->
+  point_in_cone p T r h = true -> dot p d <= dot (support_cone d T r h) d.
+Proof. exact (contained_cone_below_support p d T r h). Qed.
+Print Assumptions C13_cone_support.
+
+Theorem C13_cylinder_support (p d : V3R) (T : Pose R) (r l : R) :
+  is_rotation (rot T) -> 0 <= r -> 0 <= l ->
+  point_in_cylinder p T r l = true -> dot p d <= dot (support_cylinder d T r l) d.
+Proof. exact (contained_cylinder_below_support p d T r l). Qed.
+Print Assumptions C13_cylinder_support.
+
+Theorem C13_box_support (p d : V3R) (T : Pose R) (size : V3R) :
+  is_rotation (rot T) -> 0 <= vx size -> 0 <= vy size -> 0 <= vz size ->
+  point_in_box p T size = true ->
+  exists s, support_box_collider d T size = Some s /\ dot p d <= dot s d.
+Proof. exact (contained_box_below_support p d T size). Qed.
+Print Assumptions C13_box_support.
+
+Theorem C13_disk_support (p c d : V3R) (r : R) (n : V3R) :
+  dot n n = 1 -> 0 <= r ->
+  point_in_disk p c r n = true ->
+  dot p d <= dot (support_disk d c r n) d + @EPSILON10 R ROps * Rabs (dot n d).
+Proof. exact (contained_disk_below_support p c d r n). Qed.
+Print Assumptions C13_disk_support.
+
+(** ** non-vacuity: a rotated pose, one point inside and one outside for every predicate *)
+Definition T345y : Pose R := P (M (V (3 / 5) 0 (4 / 5)) (V 0 1 0) (V (- (4 / 5)) 0 (3 / 5))) (V 1 2 3).
+Lemma T345y_rotation_nonvacuous : is_rotation (rot T345y).
+Proof. apply is_rotation_cols. unfold cols_orthonormal, T345y. vunfold. cbn. repeat split; field. Qed.
+
+Example C13_sphere_nonvacuous :
+  point_in_sphere (V 1 2 4) (V 1 2 3) 2 = true /\ point_in_sphere (V 4 2 3) (V 1 2 3) 2 = false.
+Proof.
+  split.
+  - apply C13_sphere. apply sphere_set_iff. vunfold. cbn [vx vy vz]. lra.
+  - apply not_true_is_false. intros H. apply C13_sphere in H. apply sphere_set_iff in H.
+    revert H. vunfold. cbn [vx vy vz]. lra.
+Qed.
+(** the centre is accepted by every pose-carrying predicate, for the rotated pose *)
+Example C13_centre_nonvacuous :
+  point_in_capsule (V 1 2 3) T345y 1 2 = true /\ point_in_ellipsoid (V 1 2 3) T345y (V 1 2 3) = true /\
+  point_in_cylinder (V 1 2 3) T345y 1 2 = true /\ point_in_box (V 1 2 3) T345y (V 1 2 3) = true /\
+  point_in_cone (center_cone T345y 2) T345y 1 2 = true.
+Proof.
+  pose proof T345y_rotation_nonvacuous as HR.
+  split; [|split; [|split; [|split]]].
+  - apply C13_capsule; auto; [lra|]. apply (SupportA.center_capsule_in T345y 1 2); lra.
+  - apply C13_ellipsoid; auto. apply (SupportB.center_ellipsoid_in T345y (V 1 2 3)); cbn [vx vy vz]; lra.
+  - apply C13_cylinder; auto. apply (SupportA.center_cylinder_in T345y 1 2); lra.
+  - apply C13_box; auto. apply (SupportA.center_box_in T345y (V 1 2 3)); cbn [vx vy vz]; lra.
+  - apply C13_cone; auto; [lra|]. apply (SupportB.center_cone_in T345y 1 2); lra.
+Qed.
+(** a point far away is rejected *)
+Example C13_outside_nonvacuous :
+  point_in_cylinder (V 100 2 3) T345y 1 2 = false /\ point_in_box (V 100 2 3) T345y (V 1 2 3) = false.
+Proof.
+  pose proof T345y_rotation_nonvacuous as HR.
+  split; apply not_true_is_false; intros H.
+  - apply C13_cylinder in H; auto. unfold cylinder_set in H. rewrite image_rotation_iff in H by auto.
+    destruct H as [H _]. revert H. unfold T345y. vunfold. cbn [vx vy vz]. lra.
+  - apply C13_box in H; auto. unfold box_set in H. rewrite image_rotation_iff in H by auto.
+    destruct H as [H _]. revert H. unfold T345y. vunfold. cbn [vx vy vz]. rewrite ContainProofs.Rabs_le_iff. lra.
+Qed.
